@@ -101,13 +101,21 @@ def gen_hist_case(rng, max_n=6, max_ops=7):
             ops.append(dict(kind="deepcopy"))
         elif r < 0.97:
             # a configuration reload in the middle of the history (changes schedules, never selections or values)
-            ops.append(dict(kind="config", config={"nodes": {"n%d" % rng.randrange(n): {"priority": rng.randint(-3, 5), "is_sequential": rng.random() < 0.5}}, "max_concurrency": rng.randint(1, 3)}))
+            ops.append(dict(kind="config", config={"nodes": {"@%d" % rng.randrange(n): {"priority": rng.randint(-3, 5), "is_sequential": rng.random() < 0.5}}, "max_concurrency": rng.randint(1, 3)}))
         else:
             # a DAG composed from the instance, and run: must leave the instance alone
             outs = sorted(rng.sample(range(n), rng.randint(1, min(2, n))))
             cand = [i for i in range(n) if i not in outs]
             ops.append(dict(kind="compose", ins=sorted(rng.sample(cand, rng.randint(0, min(1, len(cand))))), outs=outs))
     case["ops"] = ops
+    crng = random.Random(rng.getrandbits(30))
+    if n >= 2 and crng.random() < 0.25:
+        # the id of a node is a PREFIX of the id of one of the nodes before it (n3 / n30): ids are names, never patterns
+        i_ = crng.randrange(1, n)
+        j_ = crng.randrange(i_)
+        code = list(range(n))
+        code[j_] = i_ * 10
+        case["code"] = code
     case["final_args"] = [rng.randrange(1000) for _ in range(rng.randint(sum(1 for p in case["params"] if p["default"] is None), nparams))]
     case["maxc"] = rng.randint(1, 3)
     case["none_ret"] = [i for i in range(n) if rng.random() < 0.15]
@@ -143,6 +151,9 @@ def _ex(**kw):
 
 
 CORPUS = [
+    # the id of the listed node (n2) is a prefix of the id of its dependency (n20)
+    _chain_case(3, [[0, 1], [1, 2]], [_ex(cache_deps_of=[2], cache_in=True), _ex(cache_deps_of=[2], from_cache=0)], code=[0, 20, 2]),
+    _chain_case(3, [[0, 1], [1, 2]], [_ex(target=[2], cache_in=True), _ex(cache_in=True), _ex(from_cache=0), _ex(from_cache=1)], code=[10, 1, 100]),
     # the cache of `cache_deps_of=[a, b]` with a an ancestor of b through m is not closed under ancestors:
     # the restart must not run m again
     _chain_case(4, [[0, 1], [1, 2], [2, 3]], [_ex(cache_deps_of=[1, 3], cache_in=True), _ex(cache_deps_of=[1, 3], from_cache=0)]),
@@ -189,9 +200,9 @@ def build(case):
         if i in case["setup"]:
             kw["setup"] = True
         if i in case.get("none_ret", []):
-            fs.append(tz.mknode("n%d" % i, (lambda *a, **k: None), **kw))  # a side-effect-only node: returns None
+            fs.append(tz.mknode(nm(i), (lambda *a, **k: None), **kw))  # a side-effect-only node: returns None
         else:
-            fs.append(tz.mknode("n%d" % i, (lambda i: (lambda *a, **k: ("n%d" % i,) + tuple(a)))(i), **kw))
+            fs.append(tz.mknode(nm(i), (lambda i: (lambda *a, **k: ("n%d" % i,) + tuple(a)))(i), **kw))
     import inspect
 
     def desc(*params):
@@ -213,8 +224,31 @@ def build(case):
     return tawazi.dag(desc, max_concurrency=case.get("maxc", 1), is_async=bool(case.get("is_async")))
 
 
+CODE = [None]  # the node-name coding of the case being processed: node i is called "n<code[i]>" (default: "n<i>")
+
+
+def use(case):
+    CODE[0] = case.get("code")
+
+
+def nm(i):
+    c = CODE[0]
+    return "n%d" % (c[i] if c else i)
+
+
+def idx_of(name):
+    """inverse of nm for the current case; None for ids that are not DAG nodes of the case"""
+    if not (name.startswith("n") and name[1:].isdigit()):
+        return None
+    k = int(name[1:])
+    c = CODE[0]
+    if c:
+        return c.index(k) if k in c else None
+    return k
+
+
 def names(l):
-    return None if l is None else ["n%d" % i for i in l]
+    return None if l is None else [nm(i) for i in l]
 
 
 def run_op(d, thunk, fails=()):
@@ -227,6 +261,7 @@ def run_op(d, thunk, fails=()):
 
 def run_history(case, tmpdir):
     """-> list of per-operation observations, final comparison"""
+    use(case)
     d = build(case)
     obs = []
     caches = {}
@@ -271,10 +306,13 @@ def run_history(case, tmpdir):
             o["executed"] = []
             try:
                 if k == "config":
-                    cur.config_from_dict(json.loads(json.dumps(op["config"])))
+                    cf = json.loads(json.dumps(op["config"]))
+                    if "nodes" in cf:
+                        cf["nodes"] = {(nm(int(k_[1:])) if k_.startswith("@") else k_): v_ for k_, v_ in cf["nodes"].items()}
+                    cur.config_from_dict(cf)
                     o["status"] = "ok"
                 else:
-                    cd = cur.compose("cmp%d" % oi, ["n%d" % i for i in op["ins"]], ["n%d" % i for i in op["outs"]])
+                    cd = cur.compose("cmp%d" % oi, [nm(i) for i in op["ins"]], [nm(i) for i in op["outs"]])
                     stc, exc_, _, _ = run_op(cd, lambda: cd(*[("in", i) for i in op["ins"]]))
                     o["status"] = "ok"
                     o["composed_status"] = stc[0]
@@ -301,7 +339,7 @@ def run_history(case, tmpdir):
             elif k == "setup":
                 st, ex, cnt, ctl = run_op(cur, lambda: cur.setup(target_nodes=names(op["target"]), exclude_nodes=names(op["exclude"]), root_nodes=names(op["root"])))
             elif k == "fail":
-                fails = {"n%d" % op["node"]}
+                fails = {nm(op["node"])}
                 if op["via"] == "call":
                     st, ex, cnt, ctl = run_op(cur, lambda: cur(*op["args"]), fails)
                 else:
@@ -328,7 +366,8 @@ def run_history(case, tmpdir):
                 if op["cache_deps_of"] is not None:
                     kw = dict(cache_deps_of=names(op["cache_deps_of"]))
                 if op["cache_in"]:
-                    kw["cache_in"] = os.path.join(tmpdir, "c%d.pkl" % oi)
+                    # (the documentation recommends, but does not require, names ending in .pkl)
+                    kw["cache_in"] = os.path.join(tmpdir, "c%d.pkl" % oi if oi % 2 == 0 else "run.c%d" % oi)
                 if op["from_cache"] is not None and op["from_cache"] in caches:
                     kw["from_cache"] = caches[op["from_cache"]]["path"]
                     o["cache_keys_loaded"] = list(caches[op["from_cache"]]["keys"])
@@ -431,10 +470,11 @@ def run_history(case, tmpdir):
 
 # ------------------------------------------------------------------------------ model side
 def opt_ids(l, ids):
-    return "None" if l is None else "(Some %s)" % coqrun.nat_list([ids("n%d" % i) for i in l])
+    return "None" if l is None else "(Some %s)" % coqrun.nat_list([ids(nm(i)) for i in l])
 
 
 def model_term(case, d, obs):
+    use(case)
     t = kgraph.impl_tables(d)
     ids = coqrun.Ids(list(t["nodes"]) + [p for ps in t["deps"].values() for p in ps])
     consts = sorted(k for k in d.results.keys() if k in ids.idx and not d.exec_nodes[k].setup) if False else None
@@ -613,7 +653,7 @@ def run(pid, tier, seed, res, only=None):
                     bad_ = not (isinstance(a_, tuple) and isinstance(b_, tuple) and len(a_) == len(b_))
                     if not bad_:
                         for i_, (x_, y_) in enumerate(zip(a_, b_)):
-                            if x_ != y_ and not (y_ is None and "n%d" % i_ in o["done_before"]):
+                            if x_ != y_ and not (y_ is None and nm(i_) in o["done_before"]):
                                 bad_ = True
                     if bad_:
                         res.hit("C18", "monitor", "restart from the cache file returned %r, the caching run returned %r" % (o["value"], o.get("cache_src_value")), dict(base, kind="monitor", op_index=oi))
@@ -652,6 +692,7 @@ def run(pid, tier, seed, res, only=None):
     if errors:
         res.hit(pid, "divergence", "coqc failed on K-hist case files: " + errors[0][2][-400:], dict(kind="coqc-error"))
     for k, (ci, ids, index, obs, base) in enumerate(where):
+        use(base["case"])
         v = results.get(k)
         if v is None:
             res.hit(pid, "divergence", "no model result for a history", dict(base, kind="no-result"))
@@ -693,7 +734,7 @@ def run(pid, tier, seed, res, only=None):
                     if set(mnames) - set(o["executed"]):
                         props_.add("C09")  # returned normally while a selected node has not run
                     diffn = set(o["executed"]) ^ set(mnames)
-                    if any(x in ids.idx and base["case"]["setup"] and x.startswith("n") and x[1:].isdigit() and int(x[1:]) in base["case"]["setup"] for x in diffn):
+                    if any(x in ids.idx and base["case"]["setup"] and idx_of(x) is not None and idx_of(x) in base["case"]["setup"] for x in diffn):
                         props_.add("C11")
                     if o["op"].get("from_cache") is not None or o["op"].get("cache_deps_of") is not None:
                         props_.add("C18")
@@ -711,6 +752,7 @@ def run(pid, tier, seed, res, only=None):
             res.hit(pid, "divergence", "coqc failed on K-hist start-map files: " + errors_s[0][2][-300:], dict(kind="coqc-error"))
         MISSING = object()
         for k_, (base, oi, sm, keys_) in enumerate(src_where):
+            use(base["case"])
             v = results_s.get(k_)
             if v is None or len(v) != len(keys_):
                 res.hit(pid, "divergence", "no model result for a restart's start map", dict(base, kind="no-result", op_index=oi))
